@@ -109,6 +109,20 @@ TEXT['C08'] = (
     'ratios, K = exp(-dG/RT), Kf x Kr = 1; after every step every reaction is re-checked at a fixed condition (staleness).',
     'DESIGN.md 3.8')
 
+TEXT['C01'] = (
+    'Claimed because the values a vibrational / electronic mode reports come from caches that only some edits refresh: a species '
+    '"assembled with parameters p" is reachable by construction or by any sequence of edits ending in p. Seeded search over '
+    'histories in which 1-3 clients build 1-4 StatMech species from mode objects that may be shared between species, edit public '
+    'parameters of modes (wavenumbers, imaginary_substitute, Bav, v0, alpha, spin, energies, rotor data, masses), swap modes and '
+    'evaluate. After every step every species is compared, getter by getter, with a species freshly built from the same public '
+    'parameters (cache coherence; sharing makes one edit reach every owner) and must satisfy G=H-TS, F=U-TS, H-U in {1,0}; on '
+    'evaluation steps also Cv=dU/dT, Cp=dH/dT, dS/dT=Cp/T (5-point Richardson differences), S(P2)-S(P1)=-ln(P2/P1), verbose '
+    'entries summing/multiplying to the total and equal to the mode\'s own value, and the textbook closed forms of the harmonic '
+    'oscillator, Sackur-Tetrode translation, rigid rotor and ground-state electronic mode; geometry-derived parameters of G2 '
+    'molecules under rigid motions and atom permutations. Two formula defects pinned by the test suite are recorded known '
+    'findings and only the affected clause is withheld.',
+    'DESIGN.md 3.1')
+
 TECHNIQUE = 'deterministic simulation with fault injection (seeded schedule/history search, reference-model oracle, ddmin replay)'
 
 
